@@ -923,10 +923,15 @@ class SymX:
             lid = self.fresh()
             loop = Loop(lid, "for", it, None, self.fi, s, early)
 
+            counters = self._induction_variables(s, pre)
+
             def make(changed: set) -> State:
                 b = pre.copy()
                 self._havoc_names(b, assigned, lid)
                 self._havoc_heap(b, changed, lid)
+                j = ("elem", ("call", ("builtin", "range"), (("call", ("builtin", "len"), (it,), ()),), ()), lid)
+                for name, start in counters.items():
+                    b.env[name] = j if start == 0 else ("binop", "+", j, const(start))
                 self._bind_iteration(s.target, it, b, lid)
                 return b
 
@@ -967,6 +972,22 @@ class SymX:
                     plain |= {x.id for x in ast.walk(t) if isinstance(x, ast.Name)}
         return {n for n in aug - plain if st.env.get(n, ("x",))[0] == "box"}
 
+    @staticmethod
+    def _induction_variables(s: ast.For, pre: State) -> dict[str, int]:
+        """Locals that count the iterations: an integer constant before the loop, `+= 1` exactly once per iteration as a statement
+        of the loop body itself (not nested), never assigned otherwise and never skipped by `continue`."""
+        out: dict[str, int] = {}
+        if any(isinstance(n, ast.Continue) for b in s.body for n in _walk_own(b)):
+            return out
+        for stmt in s.body:
+            if isinstance(stmt, ast.AugAssign) and isinstance(stmt.target, ast.Name) and isinstance(stmt.op, ast.Add) and isinstance(stmt.value, ast.Constant) and stmt.value.value == 1:
+                name = stmt.target.id
+                stores = [n for b in s.body for n in _walk_own(b) if isinstance(n, ast.Name) and n.id == name and isinstance(n.ctx, (ast.Store, ast.Del))]
+                cur = pre.env.get(name)
+                if len(stores) == 1 and cur is not None and cur[0] == "const" and isinstance(cur[1], int) and not isinstance(cur[1], bool):
+                    out[name] = cur[1]
+        return out
+
     def _while(self, s: ast.While, st: State) -> State:
         assigned = _assigned_names(s.body) - self._inplace_only(s.body, st)
         early = _exits_early(s.body)
@@ -1005,6 +1026,11 @@ class SymX:
                 src = src[2][0]
         if src[0] == "yields":
             self._assign(target, phi(list(src[1])) if src[1] else ("unk", "nothing yielded", 0), st, None)
+            return
+        single = src[3] if src[0] == "box" and self._never_mutated(src) else src
+        if single[0] in ("list", "tuple", "set") and len(single[1]) == 1 and single[1][0][0] != "star":
+            # a display with exactly one element: the loop variable is that element
+            self._assign(target, single[1][0], st, None)
             return
         if src[0] == "comp" and src[1] in ("list", "gen", "set"):
             # iterating a comprehension: the loop variable is the comprehension's element, under its filters
@@ -1852,4 +1878,6 @@ def default_policy(entry: FuncInfo | None, caller: FuncInfo, callee: FuncInfo) -
         return True
     if entry is not None and entry.cls is not None and callee.cls is not None and callee.cls.fq == entry.cls.fq:
         return True
+    if entry is not None and callee.module is entry.module and callee.cls is not None and callee.cls is not entry.cls and not callee.cls.bases:
+        return True  # helper classes written next to the entry point (not part of a class hierarchy with virtual calls)
     return callee.is_staticmethod or callee.is_classmethod
